@@ -16,6 +16,8 @@ use thiserror::Error;
 mod unification;
 pub(crate) use unification::Relation;
 use unification::{Error as UnificationError, unify_types};
+#[cfg(mimium_verif)]
+pub use unification::verif as verif_unify;
 
 /// The entries of a map keyed by `Symbol`, ordered by the text of their keys.
 /// The iteration order of a `HashMap` changes from process to process and the order of `Symbol`
